@@ -81,13 +81,23 @@ def project_unmanaged(st, sites):
     }
 
 
-PROJECTORS = {"managed": None, "unmanaged": project_unmanaged}
+def harness_cfg_sync(c):
+    return {"k": c.get("K", 1), "ninteract": c.get("NInteract", 2)}
+
+
+def project_sync(st, sites):
+    return {"wrapper": st["wrapper"], "poisoned": st["poisoned"], "js": st["js"], "fut": st["fut"], "dtor": st["dtor"]}
+
+
+PROJECTORS = {"managed": None, "unmanaged": project_unmanaged, "sync": project_sync}
 
 
 def site_map(spec_path):
     """SiteOf(l) CASE arms of the specification -> {pc: site}."""
     txt = open(spec_path).read()
     m = re.search(r'SiteOf\(l\) ==(.*?)\[\] OTHER', txt, re.S)
+    if not m:
+        return {}
     return dict(re.findall(r'l = "(\w+)" -> "([\w.]+)"', m.group(1)))
 
 
@@ -122,6 +132,8 @@ def parse_label(lbl):
         return name, "", []
     args = re.sub(r'\bTRUE\b', 'true', re.sub(r'\bFALSE\b', 'false', args))
     a = json.loads('[' + args.replace('{', '[').replace('}', ']').replace('<<', '[').replace('>>', ']') + ']')
+    if not isinstance(a[0], str):
+        return name, "", a      # actions without a task argument
     return name, a[0], a[1:]
 
 
@@ -250,6 +262,9 @@ def write_paths(out_path, hcfg, nodes, edges, paths, sites, meta, kind="managed"
     [label index, node index] pairs."""
     node_ix = {}
     node_lines = []
+    # nodes from which a step of the environment-independent part of the system is enabled
+    # (sync: the blocking pool's own steps): the harness compares only in stable states
+    unstable = set(src for (src, dst, lbl) in edges if lbl.startswith("StartJob(") or lbl.startswith("Lock("))
 
     def nix(nid):
         i = node_ix.get(nid)
@@ -257,7 +272,10 @@ def write_paths(out_path, hcfg, nodes, edges, paths, sites, meta, kind="managed"
             i = len(node_lines)
             node_ix[nid] = i
             proj = project if kind == "managed" else PROJECTORS[kind]
-            node_lines.append(json.dumps({"n": i, "post": proj(state_to_json(nodes[nid]), sites)},
+            post = proj(state_to_json(nodes[nid]), sites)
+            if kind == "sync":
+                post["stable"] = nid not in unstable
+            node_lines.append(json.dumps({"n": i, "post": post},
                                          separators=(',', ':')))
         return i
 
